@@ -10,6 +10,7 @@ CONSTANTS
   MaxConds = 0
   UseOpts = FALSE
   UseBlocks = FALSE
+  Axes <- MC_Axes
   MaxObs = 0
   MaxRagged = 3
   MaxRaggedInt = 3
